@@ -108,6 +108,10 @@ func c03(env *core.Env, kind string) {
 		cfg.MaxBlob = 140000
 	}
 	n := c.Range("nops", 10, 40)
+	if env.Tier == "thorough" {
+		n = c.Range("nops", 10, 90)
+		cfg.Repos = pickSome(c, "repos", repoNames, 1, 5)
+	}
 	env.Sample("stack=%s immutableTags=%v repos=%v ops=%d pageSize=%d server=%+v", kind, immutable, cfg.Repos, n, o.PageSize, o.Server)
 	g := reg.NewGen(c, m, cfg)
 	hD, hH := reg.NewHandles(), reg.NewHandles()
